@@ -6,6 +6,7 @@ every mentioned object carries every requested value (compared as text).  FuzzyF
 back into blocks (query text -> rows of node URIs); expected blocks = every non-empty combination of the pairs
 (one value per attribute) that has a hit, most specific first."""
 import itertools
+import os
 import re
 import warnings
 
@@ -383,6 +384,22 @@ def run_case(case, ctx):
     with warnings.catch_warnings():
         warnings.simplefilter("ignore")
         docs = [gen.build_doc(s) for s in specs]
+        if case.get("i", 0) % 3 == 0:
+            # the documents of this set come from files, all of the same base name in different directories
+            # (day1/metadata.xml, day2/metadata.xml ...): what is searched is what was loaded
+            import odml
+            from vlib import env
+            loaded = []
+            try:
+                for k_, d_ in enumerate(docs):
+                    dd_ = os.path.join(env.scratch(), "c20_%d_%d" % (os.getpid(), case.get("i", 0)), "day%d" % k_)
+                    os.makedirs(dd_, exist_ok=True)
+                    odml.save(d_, os.path.join(dd_, "metadata.xml"))
+                    loaded.append(odml.load(os.path.join(dd_, "metadata.xml"), show_warnings=False))
+                docs = loaded
+                rec.count("workload", "document-sets-loaded-from-equally-named-files")
+            except Exception as exc:
+                rec.count("workload", "file-route-refused-%s (documents used as built)" % type(exc).__name__)
         models = [model.model_of(d) for d in docs]
         graph = RDFWriter(docs, rdf_subclassing=False).convert_to_rdf()
     from checks.c01_xml import no_ids
